@@ -906,8 +906,12 @@ func genC17(e *emitter, r *rng, tier string) {
 		} else {
 			p = genPacket(r, r.chance(1, 3))
 		}
-		e.emit("str-"+typeName(p), op1("str", packetSx(p)))
-		if b := encOf(genPacket(r, false)); b != nil {
+		// the library's String methods build their text by repeated concatenation (quadratic); packets with
+		// thousands of elements are formatted only occasionally so that the quick tier stays quick
+		if sx := packetSx(p); len(sx.String()) < 20000 || r.chance(1, 40) {
+			e.emit("str-"+typeName(p), op1("str", sx))
+		}
+		if b := encOf(genPacket(r, false)); b != nil && (len(b) < 2000 || r.chance(1, 40)) {
 			e.emit("strdec", op1("strdec", sb(mutate(r, b))))
 		}
 	}
